@@ -2,6 +2,7 @@
 use crate::common::*;
 use crate::dictutil::*;
 use serde_json::{json, Value};
+use sudachi::dic::subset::InfoSubset;
 use sudachi::analysis::mlist::MorphemeList;
 use sudachi::analysis::stateful_tokenizer::StatefulTokenizer;
 use sudachi::analysis::Mode;
@@ -89,6 +90,17 @@ fn rand_text(rng: &mut Rng) -> String {
     s
 }
 
+/// a headword of 130 characters (strings of 128 and more UTF-16 units carry a two-byte length in the binary dictionary)
+/// the longest headword of the test lexicon (300 digits)
+fn long_numeral() -> String {
+    let lex = std::fs::read_to_string(format!("{}/sudachi/tests/resources/lex.csv", repo())).unwrap_or_default();
+    lex.lines().map(|l| l.split(',').next().unwrap_or("")).max_by_key(|s| s.len()).unwrap_or("").to_string()
+}
+
+fn long_surface() -> String {
+    "ｙ".repeat(130)
+}
+
 /// analyse + touch every accessor; Ok(Ok(n morphemes)) / Ok(Err(error text)) / Err(panic)
 fn analyse(dict: &JapaneseDictionary, tok: &mut StatefulTokenizer<&JapaneseDictionary>, mode: Mode, text: &str) -> Result<Result<(usize, bool), String>, String> {
     catch(|| {
@@ -141,7 +153,7 @@ pub fn run(args: &Args) {
     let u2 = compile_user(&system, &format!("ゆず,6,6,2816,ゆず,{0},ユズ,ゆず,*,A,*,*,*,*\nだいだい,8,8,2000,だいだい,被子植物門,双子葉植物綱,ムクロジ目,ミカン科,ミカン属,ダイダイ,ダイダイ,だいだい,*,A,*,*,*,*\n", shared_pos));
     // (the third dictionary also holds abbreviation-like words whose declared units are together LONGER than the word:
     //  the last unit takes what is left of the word)
-    let u3 = compile_user(&system, &format!("東都,6,6,2000,東都,名詞,固有名詞,地名,一般,*,*,トウト,東都,*,C,5/9,5/9,*,*\n京京,6,6,2000,京京,名詞,固有名詞,地名,一般,*,*,キョウキョウ,京京,*,C,3/5,3/5,*,*\nれもん,6,6,2816,れもん,被子植物門,双子葉植物綱,ムクロジ目,ミカン科,ミカン属,レモン,レモン,れもん,*,A,*,*,*,*\nらいむ,8,8,2100,らいむ,{0},ライム,らいむ,*,A,*,*,*,*\nぽんかん,8,8,2100,ぽんかん,柑橘,新種,*,*,*,*,ポンカン,ぽんかん,*,A,*,*,*,*\n", shared_pos));
+    let u3 = compile_user(&system, &format!("東都,6,6,2000,東都,名詞,固有名詞,地名,一般,*,*,トウト,東都,*,C,5/9,5/9,*,*\n京京,6,6,2000,京京,名詞,固有名詞,地名,一般,*,*,キョウキョウ,京京,*,C,3/5,3/5,*,*\nれもん,6,6,2816,れもん,被子植物門,双子葉植物綱,ムクロジ目,ミカン科,ミカン属,レモン,レモン,れもん,*,A,*,*,*,*\nらいむ,8,8,2100,らいむ,{0},ライム,らいむ,*,A,*,*,*,*\nぽんかん,8,8,2100,ぽんかん,柑橘,新種,*,*,*,*,ポンカン,ぽんかん,*,A,*,*,*,*\nれもんらいむ,6,6,500,れもんらいむ,名詞,固有名詞,地名,一般,*,*,レモンライム,れもんらいむ,*,C,U2/U3,U2/U3,U2/U3,*\nらいむぽんかん東京,6,6,500,らいむぽんかん東京,名詞,固有名詞,地名,一般,*,*,ライムポンカントウキョウ,らいむぽんかん東京,*,C,U3/U4/5,U3/U4/5,*,*\n{1},6,6,500,{1},名詞,固有名詞,地名,一般,*,*,{2},{3},*,A,*,*,*,*\nきんかん,6,6,500,きんかん,名詞,固有名詞,地名,一般,*,*,{2},{3},*,A,*,*,*,*\n", shared_pos, long_surface(), "キ".repeat(200), "金".repeat(140)));
     let extra_users: Vec<Vec<u8>> = match (u2, u3) {
         (Ok(a), Ok(b)) => vec![a, b],
         (a, b) => {
@@ -177,7 +189,9 @@ pub fn run(args: &Args) {
             for t in nasty() {
                 texts.push(("hostile".into(), t));
             }
-            for t in ["ゆずとれもんとらいむ", "ぽんかんだいだいすだちかぼす", "abc-12ゆずらいむぽんかん東京府", "東都", "東都に行った京京", "京京", "☆★", "☆★☆", "東京☆★に"] {
+            texts.push(("hostile".into(), format!("東京{}に", long_numeral())));
+            texts.push(("hostile".into(), format!("{}きんかん", long_surface())));
+            for t in ["れもんらいむ", "らいむぽんかん東京に", "れもんらいむらいむぽんかん東京", "ゆずとれもんとらいむ", "ぽんかんだいだいすだちかぼす", "abc-12ゆずらいむぽんかん東京府", "東都", "東都に行った京京", "京京", "☆★", "☆★☆", "東京☆★に"] {
                 texts.push(("hostile".into(), t.to_string()));
             }
             for _ in 0..args.n(150, 3000) {
@@ -253,6 +267,9 @@ pub fn run(args: &Args) {
                     sink.case(t, json!({"kind": "build-model", "config": cname, "mode": "C", "text": text}), true);
                 }
             }
+        }
+        if replay_case.is_none() || replay_case.as_ref().map(|c| c["kind"] == "field-request").unwrap_or(false) {
+            field_request_runs(&mut sink, &dict, cname, replay_case.as_ref());
         }
     }
     // configurations without any OOV provider: refused at load time, or -- if a version of the loader accepts them -- every
@@ -339,6 +356,80 @@ fn touch_all(ml: &MorphemeList<&JapaneseDictionary>) -> Result<String, String> {
     }
     std::hint::black_box(sum);
     Ok(concat)
+}
+
+/// Restricted field requests (StatefulTokenizer::set_subset, what sudachipy's `fields=` ends in): the binary reader SKIPS the
+/// fields that are not requested.  Every text x mode x request must give a morpheme list whose every accessor returns, whose
+/// surfaces concatenate to the input, and whose units (requested or not, the mode's split list is always loaded) are the
+/// declared ones for the directed compound words.
+fn field_request_runs(sink: &mut Sink, dict: &JapaneseDictionary, cname: &str, replay: Option<&Value>) {
+    let subsets: Vec<(&str, InfoSubset)> = vec![
+        ("{}", InfoSubset::empty()),
+        ("{POS_ID}", InfoSubset::POS_ID),
+        ("{NORMALIZED_FORM}", InfoSubset::NORMALIZED_FORM),
+        ("{READING_FORM,SYNONYM_GROUP_ID}", InfoSubset::READING_FORM | InfoSubset::SYNONYM_GROUP_ID),
+        ("{DIC_FORM_WORD_ID}", InfoSubset::DIC_FORM_WORD_ID),
+        ("{SPLIT_A,SPLIT_B}", InfoSubset::SPLIT_A | InfoSubset::SPLIT_B),
+        ("{WORD_STRUCTURE,POS_ID}", InfoSubset::WORD_STRUCTURE | InfoSubset::POS_ID),
+        ("{SURFACE}", InfoSubset::SURFACE),
+        ("all", InfoSubset::all()),
+    ];
+    let texts: Vec<String> = match replay {
+        Some(rc) => vec![rc["text"].as_str().unwrap_or("").to_string()],
+        None => vec![format!("東京{}に", long_numeral()), long_numeral(), format!("{}きんかん", long_surface()), "きんかんに行った".into(), "れもんらいむ".into(),
+                     "らいむぽんかん東京に".into(), "東京都に行った。".into(), "東都京京".into(), "ゆずとだいだい123,456アイアイウ".into(), "".into()],
+    };
+    // declared units of the directed compounds (every mode that splits them)
+    let declared: Vec<(&str, Vec<&str>)> = vec![("れもんらいむ", vec!["れもん", "らいむ"]), ("らいむぽんかん東京", vec!["らいむ", "ぽんかん", "東京"])];
+    for (sname, sub) in &subsets {
+        if let Some(rc) = replay {
+            if rc["fields"].as_str() != Some(*sname) {
+                continue;
+            }
+        }
+        for text in &texts {
+            for mode in [Mode::A, Mode::B, Mode::C] {
+                let mname = match mode { Mode::A => "A", Mode::B => "B", Mode::C => "C" };
+                if let Some(rc) = replay {
+                    if rc["mode"].as_str() != Some(mname) {
+                        continue;
+                    }
+                }
+                let shown: String = if text.len() > 80 { format!("{}… ({} bytes)", text.chars().take(12).collect::<String>(), text.len()) } else { text.clone() };
+                sink.tag("field-request");
+                let id = sink.case_rust_only(json!({"kind": "field-request", "config": cname, "mode": mname, "fields": sname, "text": text}), !text.is_empty());
+                let r = catch(|| -> Result<(String, Vec<String>), String> {
+                    let mut tok = StatefulTokenizer::new(dict, mode);
+                    tok.set_subset(*sub);
+                    tok.reset().push_str(text);
+                    tok.do_tokenize().map_err(|e| format!("{:?}", e))?;
+                    let mut ml = MorphemeList::empty(dict);
+                    ml.collect_results(&mut tok).map_err(|e| format!("{:?}", e))?;
+                    let c = touch_all(&ml)?;
+                    let surfaces: Vec<String> = ml.iter().map(|m| m.surface().to_string()).collect();
+                    Ok((c, surfaces))
+                });
+                if replay.is_some() {
+                    println!("config={} fields={} mode={} text={:?} -> {:?}", cname, sname, mname, shown, r);
+                }
+                match r {
+                    Err(p) => sink.fail(id, &format!("analysis with the field request {} (mode {}) or an accessor panicked ({}) for {:?} [{}]", sname, mname, p, shown, cname), ""),
+                    Ok(Err(e)) => sink.fail(id, &format!("analysis with the field request {} (mode {}) gives the error {} for {:?} [{}]", sname, mname, e, shown, cname), ""),
+                    Ok(Ok((c, surfaces))) => {
+                        if &c != text {
+                            sink.fail(id, &format!("field request {} (mode {}): surfaces concatenate to {:?}, not to the input {:?} [{}]", sname, mname, c.chars().take(40).collect::<String>(), shown, cname), "");
+                        } else if mode != Mode::C {
+                            for (w, units) in &declared {
+                                if text.starts_with(w) && !surfaces.iter().take(units.len()).map(|x| x.as_str()).eq(units.iter().copied()) && surfaces.first().map(|f| f.len() <= w.len()).unwrap_or(false) {
+                                    sink.fail(id, &format!("field request {} (mode {}): {:?} (a word of the third user dictionary whose units are words of that dictionary) comes out as {:?}, declared units {:?} [{}]", sname, mname, w, surfaces, units, cname), "");
+                                }
+                            }
+                        }
+                    }
+                }
+            }
+        }
+    }
 }
 
 /// One tokenizer and ONE result list reused over a sequence of inputs (empty, blank, ordinary, rejected ones anywhere):
@@ -531,7 +622,8 @@ pub fn run_debug_child(args: &Args) {
     let mut bad = 0;
     for mode in [Mode::A, Mode::B, Mode::C] {
         let mut tok = StatefulTokenizer::create(&dict, true, mode);
-        let mut texts: Vec<String> = vec!["東京都に行った。京都にも行った。".into(), "東京".into(), "".into(), "a".into(), "高輪ゲートウェイ駅に東京都から行った".into(), "に".into()];
+        let mut texts: Vec<String> = vec!["東京都に行った。京都にも行った。".into(), "東京".into(), "".into(), "a".into(), "高輪ゲートウェイ駅に東京都から行った".into(), "に".into(),
+                                           format!("東京{}に", long_numeral()), "京都".into()];
         for _ in 0..40 {
             texts.push(rand_text(&mut rng));
         }
